@@ -80,12 +80,17 @@ type program struct {
 	Src       string `json:"src"`
 	NonStrict bool   `json:"non_strict"`
 	Lit       string `json:"literal"`
+	// Extra holds further files (name -> source) next to the root a.thrift.
+	Extra map[string]string `json:"extra_files,omitempty"`
 	// check inspects the compiled module; returns "" if well-formed.
 	check func(m *compile.Module) string
 }
 
 func compileSrc(p program) (*compile.Module, error) {
 	fs := memfs.FS{"/m/a.thrift": p.Src}
+	for name, src := range p.Extra {
+		fs["/m/"+name] = src
+	}
 	opts := []compile.Option{compile.Filesystem(fs)}
 	if p.NonStrict {
 		opts = append(opts, compile.NonStrict())
@@ -300,6 +305,96 @@ func programs() []program {
 	reject("service-cycle-2", "service A extends B {}\nservice B extends A {}", false)
 	reject("service-cycle-3", "service A extends B {}\nservice B extends C {}\nservice C extends A {}", false)
 	reject("service-cycle-tail", "service D extends A {}\nservice A extends B {}\nservice B extends A {}", false)
+	out = append(out, crossFileCycles()...)
+	return out
+}
+
+// crossFileCycles: every cycle of 2..3 services (extends) or constants (value
+// reference) whose members are spread over the files a, b, c in every way with at
+// least one edge crossing a file boundary; files include each other as needed;
+// with and without a definition in the root file that enters the cycle from outside.
+func crossFileCycles() []program {
+	var out []program
+	fileNames := []string{"a", "b", "c"}
+	for _, what := range []string{"service", "const"} {
+		for L := 2; L <= 3; L++ {
+			n := 1
+			for i := 0; i < L; i++ {
+				n *= 3
+			}
+			for code := 0; code < n; code++ {
+				asg := make([]int, L)
+				c := code
+				cross := false
+				for i := range asg {
+					asg[i] = c % 3
+					c /= 3
+				}
+				for i := range asg {
+					if asg[i] != asg[(i+1)%L] {
+						cross = true
+					}
+				}
+				if !cross {
+					continue
+				}
+				for _, tail := range []bool{false, true} {
+					inA := tail
+					for _, f := range asg {
+						if f == 0 {
+							inA = true
+						}
+					}
+					if !inA {
+						continue
+					}
+					body := map[int]string{}
+					incl := map[int]map[int]bool{0: {}, 1: {}, 2: {}}
+					ref := func(from, to int) string {
+						name := fmt.Sprintf("N%d", to)
+						if asg[to] == from {
+							return name
+						}
+						incl[from][asg[to]] = true
+						return fileNames[asg[to]] + "." + name
+					}
+					for i := 0; i < L; i++ {
+						j := (i + 1) % L
+						if what == "service" {
+							body[asg[i]] += fmt.Sprintf("service N%d extends %s {}\n", i, ref(asg[i], j))
+						} else {
+							body[asg[i]] += fmt.Sprintf("const i32 N%d = %s\n", i, ref(asg[i], j))
+						}
+					}
+					if tail {
+						if what == "service" {
+							body[0] += fmt.Sprintf("service D extends %s {}\n", ref(0, 0))
+						} else {
+							body[0] += fmt.Sprintf("const i32 D = %s\n", ref(0, 0))
+						}
+					}
+					src := func(f int) string {
+						h := ""
+						for g := 0; g < 3; g++ {
+							if incl[f][g] {
+								h += fmt.Sprintf("include \"./%s.thrift\"\n", fileNames[g])
+							}
+						}
+						return h + body[f]
+					}
+					pr := program{Kind: fmt.Sprintf("%s-cycle-%d-across-files", what, L), Src: src(0), Lit: "-", Extra: map[string]string{}}
+					for f := 1; f < 3; f++ {
+						if body[f] != "" {
+							pr.Extra[fileNames[f]+".thrift"] = src(f)
+						}
+					}
+					kind := pr.Kind
+					pr.check = func(m *compile.Module) string { return "ill-formed program was accepted: " + kind }
+					out = append(out, pr)
+				}
+			}
+		}
+	}
 	return out
 }
 
